@@ -7,6 +7,33 @@ CHECKS = {
  "C01": dict(level="model_checking", tech="stateless choice-tree exploration (deviation-bounded, exhaustive) of comment/blank-line insertions into corpus templates; real decorate/restore run on every distinct canonical input",
    text="Every gofmt-canonical file obtainable from the corpus templates by at most k (quick 2, thorough 3) insertions from the comment/newline alphabet round-trips byte for byte through all public entry points, except the inputs matching the listed known findings. Exhaustive within that bound; says nothing beyond the alphabet and templates.",
    note="trusts go/format as the definition of canonical form; known layout findings are attributed by exact deviation signatures (known_findings.json)", ref="DESIGN.md §4 C01"),
+ "C03": dict(level="model_checking", tech="choice-tree exploration of non-canonical inputs (whitespace/comment alphabet x whole-file transforms), token-stream and comment oracle against gofmt",
+   text="For every parseable candidate obtainable from the templates by <=1 insertion from an 11-letter alphabet under 6 whole-file transforms (CRLF, BOM, spaces, no indentation...) and <=2 insertions from a 3-letter alphabet, the printed output parses, has gofmt's token stream and the input's comments in gofmt's order (whitespace aside).",
+   note="go/scanner defines the token stream; comment texts are compared with whitespace removed; three narrowly signed known findings (gofmt output that does not re-parse; directive placement)", ref="DESIGN.md §4 C03"),
+ "C05": dict(level="model_checking", tech="exhaustive enumeration of spacing/decoration vectors on hand-built trees against a line-break ledger model, both sides through gofmt",
+   text="For 8 list kinds and 3 elements, all 729 Before/After assignments crossed with all Start/End decoration assignments (<=2 non-empty quick, <=3 thorough) print with the line structure of the text the non-additive rule denotes.",
+   note="indentation is not compared here (C01/C02 do); go/format normalises both sides", ref="DESIGN.md §4 C05"),
+ "C06": dict(level="model_checking", tech="exhaustive enumeration of node instances and (node, slot) pairs with reflection-based completeness/aliasing/mutation oracles",
+   text="Every node instance of the corpus (plain and with every decoration point filled) is cloned and compared field by field, checked for storage disjointness and mutation independence and for identical printing when substituted; every class of (node, compatible slot) pair is built shared (must panic 'duplicate node') and cloned (must print both).",
+   note="reflection sees all state because dst nodes have only exported fields", ref="DESIGN.md §4 C06"),
+ "C08": dict(level="model_checking", tech="choice-tree exploration of import-bearing templates x resolver pairs on a typed in-memory world",
+   text="Every canonical variant (<=2 insertions, including around the dot of qualified identifiers) of 13 import-bearing templates is decorated with goast/gotypes resolvers and restored with guess/simple/map resolvers: bytes unchanged and path annotations stable under re-decoration.",
+   note="only resolver pairs that name every package correctly are in the quantifier; inputs whose plain round trip is not byte-exact are left to C01", ref="DESIGN.md §4 C08"),
+ "C11": dict(level="model_checking", tech="exhaustive enumeration of corpus variants x resolver, map laws checked by reflection against ast.Inspect",
+   text="For every corpus file and every <=1-insertion variant, with and without a resolver, Decorator.Map and Restorer.Map are total, typed, in-tree, mutually inverse (collapsed selectors excepted) and commute with every parent/child edge.",
+   note="children are found by reflection over Node-typed fields", ref="DESIGN.md §4 C11"),
+ "C12": dict(level="model_checking", tech="exhaustive enumeration of parsed/decorated/edited trees and file sequences; reflection over every token.Pos of the restored ast",
+   text="Every restored ast (parsed variants, every single decoration at every point, filled decorations, list edits, Extras on/off, sequences of 2-3 files in one FileSet) has all positions inside its one file, disjoint files, strictly increasing lines, sorted comments, and the same position order (including coincidences) as a fresh parse of its printed text.",
+   note="comment-vs-token order is only required for decorations the decorator placed itself; printed with go/printer using gofmt settings", ref="DESIGN.md §4 C12"),
+ "C13": dict(level="model_checking", tech="exhaustive enumeration of pruning predicates per tree; reference traversal by reflection and go/ast.Inspect twin",
+   text="For every corpus tree: full traversal, pruning at each single node, pruning by each node type, removal of each optional child, a visitor-per-subtree Walk, and a 3-file Package agree with the reflection-derived traversal and with go/ast.Inspect of the original ast.",
+   note="go/ast of this toolchain is the reference order", ref="DESIGN.md §4 C13"),
+ "C15": dict(level="model_checking", tech="exhaustive enumeration of truncations, byte edits, token edits of the corpus and of all short lexeme strings; panic oracle",
+   text="No prefix, suffix, single-byte insertion/substitution (20-byte alphabet), token deletion/duplication/swap, pair of token deletions of any corpus file, nor any string of <=5 lexemes over a 20-lexeme alphabet makes Parse/ParseFile/Fprint panic.",
+   note="a worker crash (fatal error) is itself reported as a violation", ref="DESIGN.md §4 C15"),
+ "C19": dict(level="model_checking", tech="explicit-state BFS over operation histories against a []string reference model",
+   text="All histories of Append/Prepend/Replace/Clear with 6 argument shapes from 3 initial lists to depth 7 (quick) / 10 (thorough): All() equals the model, caller slices are never modified or retained, and the rendered comments equal All().",
+   note="states merged by (relabelled contents, spare capacity): the methods never inspect string values", ref="DESIGN.md §4 C19"),
 }
 NA_REASON = "check not built yet in this session (planned, see DESIGN.md)"
 def main():
